@@ -27,7 +27,7 @@
 //@ clause C07.bin.generic  myc::Value dispatches to the encoder of the carried value
 //@ clause C07.bin.refuse   Err => nothing written
 //@ clause C06.text.bytes   byte strings in text protocol: lenenc_str(bytes) for every length
-//@ clause C06.text.null    None is the single byte 0xFB; Some(v) is v's encoding
+//@ clause C06.text.null    None is the single byte 0xFB; Some(v) is v's encoding; no value other than None / generic NULL reports is_null()
 //@ clause C07.bin.nopanic  the encoder returns (Ok or Err) and never panics
 #![allow(unused_imports)]
 use crate::value::ToMysqlValue;
@@ -83,6 +83,7 @@ pub fn k4_bytes_bin() {
     };
     let mut s = RecSink::new(data.as_ptr());
     let r = noerr(data[..].to_mysql_bin(&mut s, &c));
+    vk_assert!(!data[..].is_null(), "[C06.text.null] a value that is not NULL reports is_null(): the row writer would send NULL instead of it");
     let k1: usize = vk::any();
     if stringlike(c.coltype) {
         vk_cover!(n > 250, "cover: byte string beyond the 1-byte length class");
@@ -138,11 +139,13 @@ pub fn k4_forwarders_str() {
     let text: bool = vk::any();
     let mut b = Buf::<8>::new();
     let r = noerr(if text { st.to_mysql_text(&mut b) } else { st.to_mysql_bin(&mut b, &c) });
+    vk_assert!(!st.is_null(), "[C06.text.null] a value that is not NULL reports is_null(): the row writer would send NULL instead of it");
     vk_cover!(text, "cover: str text");
     vk_assert!(r.is_ok() && b.n == 3 && b.b[0] == 2 && b.b[1] == raw[0] && b.b[2] == raw[1], "[C07.bin.bytes] str not encoded as lenenc_str(as_bytes())");
     let owned: String = unsafe { String::from_utf8_unchecked(vec![raw[0], raw[1]]) };
     let mut b2 = Buf::<8>::new();
     let r2 = noerr(if text { owned.to_mysql_text(&mut b2) } else { owned.to_mysql_bin(&mut b2, &c) });
+    vk_assert!(!owned.is_null(), "[C06.text.null] a value that is not NULL reports is_null(): the row writer would send NULL instead of it");
     vk_assert!(r2.is_ok() && b2.n == 3 && b2.b[0] == 2 && b2.b[1] == raw[0] && b2.b[2] == raw[1], "[C07.bin.bytes] String not encoded as lenenc_str(as_bytes())");
 }
 
@@ -155,6 +158,7 @@ pub fn k4_bytes_text() {
     let data = lazy_bytes(n);
     let mut s = RecSink::new(data.as_ptr());
     let r = noerr(data[..].to_mysql_text(&mut s));
+    vk_assert!(!data[..].is_null(), "[C06.text.null] a value that is not NULL reports is_null(): the row writer would send NULL instead of it");
     let k1: usize = vk::any();
     vk_cover!(n == 0, "cover: empty string");
     vk_cover!(n > 65535, "cover: string beyond 65535 bytes");
@@ -215,6 +219,7 @@ pub fn k4_floats_bin() {
     };
     let mut b = Buf::<16>::new();
     let r = noerr(f.to_mysql_bin(&mut b, &c));
+    vk_assert!(!f.is_null(), "[C06.text.null] a value that is not NULL reports is_null(): the row writer would send NULL instead of it");
     vk_cover!(c.coltype == ColumnType::MYSQL_TYPE_DOUBLE && f.is_nan(), "cover: NaN into DOUBLE");
     vk_cover!(c.coltype == ColumnType::MYSQL_TYPE_TINY, "cover: float into an integer column");
     match c.coltype {
@@ -234,6 +239,7 @@ pub fn k4_floats_bin() {
     }
     let mut b2 = Buf::<16>::new();
     let r2 = noerr(d.to_mysql_bin(&mut b2, &c));
+    vk_assert!(!d.is_null(), "[C06.text.null] a value that is not NULL reports is_null(): the row writer would send NULL instead of it");
     match c.coltype {
         ColumnType::MYSQL_TYPE_DOUBLE => {
             vk_assert!(r2.is_ok() && b2.n == 8, "[C07.bin.float] f64 into DOUBLE must be 8 bytes");
@@ -267,6 +273,7 @@ pub fn k4_date_bin() {
     };
     let mut b = Buf::<16>::new();
     let r = noerr(d.to_mysql_bin(&mut b, &c));
+    vk_assert!(!d.is_null(), "[C06.text.null] a value that is not NULL reports is_null(): the row writer would send NULL instead of it");
     if c.coltype == ColumnType::MYSQL_TYPE_DATE && (y < 0 || y > 65535) {
         vk_cover!(y > 65535, "cover: a year beyond the 16-bit wire field");
         vk_cover!(y < 0, "cover: a negative year");
@@ -308,6 +315,7 @@ pub fn k4_datetime_bin() {
     };
     let mut b = Buf::<16>::new();
     let r = noerr(d.to_mysql_bin(&mut b, &c));
+    vk_assert!(!d.is_null(), "[C06.text.null] a value that is not NULL reports is_null(): the row writer would send NULL instead of it");
     let dt_col = c.coltype == ColumnType::MYSQL_TYPE_DATETIME || c.coltype == ColumnType::MYSQL_TYPE_TIMESTAMP;
     if dt_col && (y < 0 || y > 65535) {
         vk_cover!(y > 65535, "cover: a year beyond the 16-bit wire field");
@@ -347,6 +355,7 @@ pub fn k4_duration_bin() {
     };
     let mut b = Buf::<16>::new();
     let r = noerr(d.to_mysql_bin(&mut b, &c));
+    vk_assert!(!d.is_null(), "[C06.text.null] a value that is not NULL reports is_null(): the row writer would send NULL instead of it");
     if c.coltype == ColumnType::MYSQL_TYPE_TIME {
         if r.is_ok() {
             if secs == 0 && us == 0 {
